@@ -228,35 +228,87 @@ impl MulAssign for Scalar {
 // ---------------------------------------------------------------- groups
 macro_rules! group_model {
     ($P:ident, $A:ident, $CB:expr, $UB:expr) => {
-        #[derive(Clone, Copy, PartialEq, Eq, Debug, Default, Hash, Serialize, Deserialize)]
-        pub struct $P(pub u16);
-        #[derive(Clone, Copy, PartialEq, Eq, Debug, Default, Hash, Serialize, Deserialize)]
-        pub struct $A(pub u16);
-
-        ct_impls!($P);
-        ct_impls!($A);
+        /// `.0` is the discrete log; `.1` is a sound *hint* "known to be non-identity" (set by the
+        /// decoders, the hash and the generator; never by arithmetic).  Invariant: `.1 => .0 != 0`.
+        /// The hint only serves equality with the identity to constant-fold during symbolic execution.
+        #[derive(Clone, Copy, Debug, Default, Serialize, Deserialize)]
+        pub struct $P(pub u16, pub bool);
+        #[derive(Clone, Copy, Debug, Default, Serialize, Deserialize)]
+        pub struct $A(pub u16, pub bool);
+        impl PartialEq for $P {
+            #[inline]
+            fn eq(&self, o: &Self) -> bool {
+                if (self.1 && o.0 == 0) || (o.1 && self.0 == 0) {
+                    false
+                } else {
+                    self.0 == o.0
+                }
+            }
+        }
+        impl Eq for $P {}
+        impl PartialEq for $A {
+            #[inline]
+            fn eq(&self, o: &Self) -> bool {
+                if (self.1 && o.0 == 0) || (o.1 && self.0 == 0) {
+                    false
+                } else {
+                    self.0 == o.0
+                }
+            }
+        }
+        impl Eq for $A {}
+        impl ConditionallySelectable for $P {
+            fn conditional_select(a: &Self, b: &Self, c: Choice) -> Self {
+                $P(u16::conditional_select(&a.0, &b.0, c), u8::conditional_select(&(a.1 as u8), &(b.1 as u8), c) != 0)
+            }
+        }
+        impl ConstantTimeEq for $P {
+            fn ct_eq(&self, o: &Self) -> Choice {
+                Choice::from((self == o) as u8)
+            }
+        }
+        impl ConditionallySelectable for $A {
+            fn conditional_select(a: &Self, b: &Self, c: Choice) -> Self {
+                $A(u16::conditional_select(&a.0, &b.0, c), u8::conditional_select(&(a.1 as u8), &(b.1 as u8), c) != 0)
+            }
+        }
+        impl ConstantTimeEq for $A {
+            fn ct_eq(&self, o: &Self) -> Choice {
+                Choice::from((self == o) as u8)
+            }
+        }
         impl $P {
-            pub const IDENTITY: $P = $P(0);
-            pub const GENERATOR: $P = $P(1);
+            /// element with the given discrete log (hint unknown)
+            pub const fn from_dlog(d: u16) -> Self {
+                $P(d, false)
+            }
+            /// element with a discrete log known to be non-zero
+            pub const fn from_nonzero_dlog(d: u16) -> Self {
+                $P(d, true)
+            }
+        }
+        impl $P {
+            pub const IDENTITY: $P = $P(0, false);
+            pub const GENERATOR: $P = $P(1, true);
             pub const COMPRESSED_BYTES: usize = $CB;
             pub const UNCOMPRESSED_BYTES: usize = $UB;
             pub fn identity() -> Self {
-                $P(0)
+                $P(0, false)
             }
             pub fn generator() -> Self {
-                $P(1)
+                $P(1, true)
             }
             pub fn is_identity(&self) -> Choice {
                 Choice::from((self.0 == 0) as u8)
             }
             pub fn to_affine(&self) -> $A {
-                $A(self.0)
+                $A(self.0, self.1)
             }
             pub fn to_compressed(&self) -> [u8; $CB] {
-                $A(self.0).to_compressed()
+                $A(self.0, self.1).to_compressed()
             }
             pub fn to_uncompressed(&self) -> [u8; $UB] {
-                $A(self.0).to_uncompressed()
+                $A(self.0, self.1).to_uncompressed()
             }
             pub fn from_compressed(bytes: &[u8; $CB]) -> CtOption<Self> {
                 $A::from_compressed(bytes).map($P::from)
@@ -270,7 +322,7 @@ macro_rules! group_model {
             pub fn from_compressed_hex(hex: &str) -> CtOption<Self> {
                 let b = hex.as_bytes();
                 if b.len() != 2 * $CB {
-                    return CtOption::new($P(0), Choice::from(0));
+                    return CtOption::new($P(0, false), Choice::from(0));
                 }
                 let hv = |c: u8| -> u16 {
                     match c {
@@ -281,7 +333,7 @@ macro_rules! group_model {
                     }
                 };
                 let v = (hv(b[0]) * 16 + hv(b[1])) % 256 + 1;
-                CtOption::new($P(v), Choice::from(1))
+                CtOption::new($P(v, true), Choice::from(1))
             }
             /// Model of hash_to_curve: one oracle query (len 128 like the real hash_to_field for
             /// two field elements), mapped to a non-identity element.
@@ -298,26 +350,26 @@ macro_rules! group_model {
                 let mut e = X::expand_message(&[msg], &dsts, 128).unwrap();
                 e.fill_bytes(&mut buf);
                 let v = ((buf[0] ^ buf[1].rotate_left(3)) as u16) + 1;
-                $P(v)
+                $P(v, true)
             }
             pub fn double(&self) -> Self {
-                $P(addq(self.0, self.0))
+                $P(addq(self.0, self.0), false)
             }
         }
         impl $A {
             pub const COMPRESSED_BYTES: usize = $CB;
             pub const UNCOMPRESSED_BYTES: usize = $UB;
             pub fn identity() -> Self {
-                $A(0)
+                $A(0, false)
             }
             pub fn generator() -> Self {
-                $A(1)
+                $A(1, true)
             }
             pub fn is_identity(&self) -> Choice {
                 Choice::from((self.0 == 0) as u8)
             }
             pub fn to_curve(&self) -> $P {
-                $P(self.0)
+                $P(self.0, self.1)
             }
             /// canonical compressed form: the identity is [0xC0, 0, ..]; a non-identity element with
             /// discrete log d (1..=256) is [0x80, 0, .., d - 1]
@@ -350,7 +402,7 @@ macro_rules! group_model {
                 let v = bytes[$CB - 1];
                 let ok = mid == 0 && (bytes[0] == 0x80 || (bytes[0] == 0xC0 && v == 0));
                 let d = if bytes[0] == 0x80 { v as u16 + 1 } else { 0 };
-                CtOption::new($A(if ok { d } else { 0 }), Choice::from(ok as u8))
+                CtOption::new($A(if ok { d } else { 0 }, ok && bytes[0] == 0x80), Choice::from(ok as u8))
             }
             pub fn from_uncompressed(bytes: &[u8; $UB]) -> CtOption<Self> {
                 let mut mid: u8 = 0;
@@ -362,57 +414,57 @@ macro_rules! group_model {
                 let v = bytes[$UB - 1];
                 let ok = mid == 0 && (bytes[0] == 0x00 || (bytes[0] == 0x40 && v == 0));
                 let d = if bytes[0] == 0x00 { v as u16 + 1 } else { 0 };
-                CtOption::new($A(if ok { d } else { 0 }), Choice::from(ok as u8))
+                CtOption::new($A(if ok { d } else { 0 }, ok && bytes[0] == 0x00), Choice::from(ok as u8))
             }
         }
         impl From<$A> for $P {
             fn from(a: $A) -> $P {
-                $P(a.0)
+                $P(a.0, a.1)
             }
         }
         impl<'a> From<&'a $A> for $P {
             fn from(a: &'a $A) -> $P {
-                $P(a.0)
+                $P(a.0, a.1)
             }
         }
         impl From<$P> for $A {
             fn from(a: $P) -> $A {
-                $A(a.0)
+                $A(a.0, a.1)
             }
         }
         impl<'a> From<&'a $P> for $A {
             fn from(a: &'a $P) -> $A {
-                $A(a.0)
+                $A(a.0, a.1)
             }
         }
-        binop_refs!($P, $P, $P, Add, add, |a, b| $P(addq(a.0, b.0)));
-        binop_refs!($P, $P, $P, Sub, sub, |a, b| $P(subq(a.0, b.0)));
-        binop_refs!($P, Scalar, $P, Mul, mul, |a, s| $P(mulq(a.0, s.0)));
-        binop_refs!($A, Scalar, $P, Mul, mul, |a, s| $P(mulq(a.0, s.0)));
-        binop_refs!($P, $A, $P, Add, add, |a, b| $P(addq(a.0, b.0)));
-        binop_refs!($P, $A, $P, Sub, sub, |a, b| $P(subq(a.0, b.0)));
+        binop_refs!($P, $P, $P, Add, add, |a, b| $P(addq(a.0, b.0), false));
+        binop_refs!($P, $P, $P, Sub, sub, |a, b| $P(subq(a.0, b.0), false));
+        binop_refs!($P, Scalar, $P, Mul, mul, |a, s| $P(mulq(a.0, s.0), false));
+        binop_refs!($A, Scalar, $P, Mul, mul, |a, s| $P(mulq(a.0, s.0), false));
+        binop_refs!($P, $A, $P, Add, add, |a, b| $P(addq(a.0, b.0), false));
+        binop_refs!($P, $A, $P, Sub, sub, |a, b| $P(subq(a.0, b.0), false));
         impl Neg for $P {
             type Output = $P;
             fn neg(self) -> $P {
-                $P(negq(self.0))
+                $P(negq(self.0), self.1)
             }
         }
         impl<'a> Neg for &'a $P {
             type Output = $P;
             fn neg(self) -> $P {
-                $P(negq(self.0))
+                $P(negq(self.0), self.1)
             }
         }
         impl Neg for $A {
             type Output = $A;
             fn neg(self) -> $A {
-                $A(negq(self.0))
+                $A(negq(self.0), self.1)
             }
         }
         impl<'a> Neg for &'a $A {
             type Output = $A;
             fn neg(self) -> $A {
-                $A(negq(self.0))
+                $A(negq(self.0), self.1)
             }
         }
         impl AddAssign for $P {
